@@ -120,7 +120,7 @@ class Translator:
             if prev is None or ('inner' in n and 'inner' not in prev):
                 self.byid[i] = n
             self.qual[i] = scope + [n.get('name', '')]
-            self.isns[i] = nsflags + [k == 'NamespaceDecl']
+            self.isns[i] = nsflags + [k == 'NamespaceDecl' and (not scope) and n.get('name') in ('Teakra', 'std20')]
             self.parent[i] = parent
         sc, nf = scope, nsflags
         pid = n.get('parentDeclContextId')
@@ -137,7 +137,7 @@ class Translator:
                 self.qual[i] = scope + [nm]
             if not (k == 'NamespaceDecl' and n.get('isInline')):
                 sc = scope + [nm]
-                nf = nsflags + [k == 'NamespaceDecl']
+                nf = nsflags + [k == 'NamespaceDecl' and (not scope) and nm in ('Teakra', 'std20')]
         if k in self.FUNC_KINDS and has_body(n):
             self.funcs_by_qual['::'.join(x for x in scope + [n.get('name', '')] if x)].append(n)
         for c in n.get('inner', []):
@@ -282,6 +282,12 @@ class Translator:
                 self.rules['std::vector<T*> -> verif_vec_ptr'] += 1
                 return 'verif_vec_ptr'
             return 'verif_opaque'
+        if q in ('std::string', 'std::basic_string<char>', 'std::__cxx11::basic_string<char>') or q.startswith('std::basic_string<char,') or q.startswith('std::__cxx11::basic_string<char,'):
+            self.rules['std::string -> verif_string (pointer + length)'] += 1
+            return const + 'verif_string'
+        if q.startswith('std::optional<'):
+            self.rules['std::optional<T> -> verif_optional (engaged flag only)'] += 1
+            return const + 'verif_optional'
         if q.startswith('std::lock_guard<') or q in ('std::mutex', 'std::recursive_mutex'):
             return 'verif_dropped'
         m = re.match(r'std::array<(.*), (\d+)>$', q)
@@ -733,7 +739,10 @@ class Translator:
                 p = params[idx]
                 init = inner(p)
                 self.rules['default argument -> explicit argument'] += 1
-                out.append(self.e(init[0]))
+                if qt(p['type']).replace('const ', '').startswith('std::optional<'):
+                    out.append('((verif_optional){0})')       # = std::nullopt
+                else:
+                    out.append(self.e(init[0]))
             else:
                 if idx < len(params) and self.is_ref(params[idx]['type']):
                     out.append(self.addr(a))
@@ -889,6 +898,10 @@ class Translator:
             ox = self.e(obj)
             self.rules['std::bitset<16>::%s -> u16 op' % name] += 1
             if name == 'to_ulong': return '((u64)%s)' % ox
+        if ot.startswith('std::basic_string<char') or ot in ('std::string',) or ot.startswith('std::__cxx11::basic_string<char'):
+            if name in ('length', 'size'):
+                self.rules['std::string::length -> .len'] += 1
+                return '%s.len' % self.e(obj)
         if ot.startswith('std::function<') and name == 'operator bool':
             fld, own, ox = self.fn_field(obj)
             self.rules['std::function operator bool -> .set flag'] += 1
@@ -914,6 +927,9 @@ class Translator:
             return '%s(%s)' % (self.use_func(dd['id']), ', '.join(self.call_args(args, dd)))
         if name == 'operator[]' and t0.startswith('std::array<'):
             return '%s.e[%s]' % (self.e(args[0]), self.e(args[1]))
+        if name == 'operator[]' and (t0.startswith('std::basic_string<char') or t0 == 'std::string' or t0.startswith('std::__cxx11::basic_string<char')):
+            self.rules['std::string::operator[] -> .p[i]'] += 1
+            return '%s.p[%s]' % (self.e(args[0]), self.e(args[1]))
         if name == 'operator[]' and t0.startswith('std::bitset<16>'):
             self.rules['std::bitset<16>::operator[] -> bit test'] += 1
             return '(((%s) >> (%s)) & 1)' % (self.e(args[0]), self.e(args[1]))
